@@ -11,6 +11,12 @@ const PARTS: [&str; 17] = ["C04", "C05", "C06", "C15", "C19", "C18", "C01", "C07
 /// runs the listed drivers; findings are kept only if `keep(key)`
 pub fn compose(ctx: &Ctx, st: &mut Stats, keep: &dyn Fn(&str) -> bool) {
     for p in PARTS {
+        // sanitizer slices (Miri is ~1000x slower): only the drivers whose calls reach code with real memory
+        // unsafety (StackVec/StackStr, from_utf8_unchecked, Lazy statics, serde). The arithmetic types are
+        // integer newtypes whose only `unsafe` is an unchecked newtype constructor - nothing Miri could flag.
+        if ctx.tier == Tier::San && !["C04", "C05", "C06", "C15", "C19"].contains(&p) {
+            continue;
+        }
         let sub = Ctx { prop: p.to_string(), ..ctx.clone() };
         let mut s = Stats::new();
         s.seq_shard = ctx.shard;
